@@ -149,6 +149,15 @@ def run_case(c):
     except Exception as e:  # noqa
         out["parsed"] = None
         out["parse_exc"] = type(e).__name__
+    # a text near the grammar: accepted (and then what it stands for) or rejected
+    nr = c.get("near")
+    if nr is not None:
+        try:
+            out["near_parsed"] = [canon(r) for r in parse(nr["text"])]
+            out["near_exc"] = None
+        except Exception as e:  # noqa
+            out["near_parsed"] = None
+            out["near_exc"] = type(e).__name__
     progs = [build_spec(ts) for ts in c["expr"]]
     out["prog"] = [canon(r) for r, _ in progs]
     out["pure"] = [p for _, p in progs]
